@@ -12,6 +12,12 @@ package analysis
 //@   pure
 //@   ensures [either_direction] r <==> a == b || hasPrefix(a, b + "/") || hasPrefix(b, a + "/")
 
+// "two targets writing the same file": outputs are compared as cleaned paths relative to the workspace root, in every
+// package (the root package included), so that ./x, a/../x and x are one location
+//@ func cleanOutputPath(target, output) (r)
+//@   pure
+//@   ensures [normalised_workspace_relative] output != "" ==> r == cleanPath(pathJoin(target.Label.Package, output))
+
 // "an input escaping its package": the cleaned path is ".." or starts with "../"
 //@ func pathTriesToEscape(relPath) (r)
 //@   pure
